@@ -228,7 +228,7 @@ def c04(ctx):
     d, f, n = run_table(ctx, "ints", config="nostd", per=20000)
     shutil.rmtree(d, ignore_errors=True)
     # "values returned by any other API": data bytes / fields of messages from factories, encoders, scanners
-    for t in ("short", "structured", "factory", "pnmsg"):
+    for t in ("short", "structured", "types", "factory", "pnmsg"):
         d, f, n = run_table(ctx, t, tier="quick", per=16384)
         shutil.rmtree(d, ignore_errors=True)
     rows = gen.random_plain(ctx.rng, "cc14", ctx.q(8000, 60000)) + gen.random_plain(ctx.rng, "pn", ctx.q(8000, 60000), first_id=2) \
